@@ -143,9 +143,13 @@ U_PhaseFinish == /\ ppc = "pf" /\ Emit(Ev("PF", pi, 0, pstatus))
 
 \* unit phase: workers
 Put(e) == q' = Append(q, e)
-W_Loop(w) ==
+W_Loop(w) ==           \* `while not ctx.has_to_stop:` - the read of the flags ...
   /\ wpc[w] = "loop"
-  /\ IF HasToStop \/ nextOp > NOps
+  /\ wpc' = [wpc EXCEPT ![w] = IF HasToStop THEN "dead" ELSE "take"]
+  /\ NoEmit /\ CUnch /\ UNCHANGED <<nextOp, wop, q, wcase, wout, stop, problem, sentAfterStop, stopped, faulted>>
+W_Take(w) ==           \* ... and `producer.next_operation()` are two steps: a stop request in between still lets the worker take one operation
+  /\ wpc[w] = "take"
+  /\ IF nextOp > NOps
      THEN wpc' = [wpc EXCEPT ![w] = "dead"] /\ UNCHANGED <<nextOp, wop>>
      ELSE wop' = [wop EXCEPT ![w] = nextOp] /\ nextOp' = nextOp + 1 /\ wpc' = [wpc EXCEPT ![w] = "create"]
   /\ NoEmit /\ CUnch /\ UNCHANGED <<q, wcase, wout, stop, problem, sentAfterStop, stopped, faulted>>
@@ -211,14 +215,14 @@ Env_Stop == /\ AllowStop /\ ~stopped /\ ppc # "end" /\ stop' = TRUE /\ stopped' 
 
 Next == \/ P_Start \/ P_PhaseStarted \/ P_Skip \/ P_Finish
         \/ U_SuiteStart \/ C_Get \/ C_Timeout \/ C_Alive \/ C_Yield \/ C_CtrlC \/ C_CtrlCGet \/ C_Join \/ U_SuiteFinish \/ U_PhaseFinish
-        \/ \E w \in Workers : W_Loop(w) \/ W_Create(w) \/ W_Err1(w) \/ W_Err2(w) \/ W_Started(w) \/ W_CaseCheck(w) \/ W_Done(w)
+        \/ \E w \in Workers : W_Loop(w) \/ W_Take(w) \/ W_Create(w) \/ W_Err1(w) \/ W_Err2(w) \/ W_Started(w) \/ W_CaseCheck(w) \/ W_Done(w)
                                \/ W_Send(w) \/ W_PutNFE(w) \/ W_Finish(w) \/ W_Intr(w)
         \/ Env_Stop
 Spec == Init /\ [][Next]_vars
 (* liveness: the main thread (plan loop + consumer) and every worker thread keep running; the environment owes nothing *)
 MainNext == P_Start \/ P_PhaseStarted \/ P_Skip \/ P_Finish \/ U_SuiteStart \/ C_Get \/ C_Timeout \/ C_Alive \/ C_Yield \/ C_CtrlC
             \/ C_Join \/ U_SuiteFinish \/ U_PhaseFinish
-WorkerNext(w) == W_Loop(w) \/ W_Create(w) \/ W_Err1(w) \/ W_Err2(w) \/ W_Started(w) \/ W_CaseCheck(w) \/ W_Send(w) \/ W_Finish(w) \/ W_Intr(w)
+WorkerNext(w) == W_Loop(w) \/ W_Take(w) \/ W_Create(w) \/ W_Err1(w) \/ W_Err2(w) \/ W_Started(w) \/ W_CaseCheck(w) \/ W_Send(w) \/ W_Finish(w) \/ W_Intr(w)
                  \/ W_PutNFE(w) \/ W_Done(w)
 FairSpec == Spec /\ WF_vars(MainNext) /\ \A w \in Workers : WF_vars(WorkerNext(w))
 
